@@ -367,11 +367,10 @@ def build_params(pdict, scaling=None, **extra):
         if kind == "custom":
             kw["scaling_type"] = ScalingType.Custom
             wd = np.dtype(scaling.get("wdtype", "int64"))
-            kw["scaling"] = Scaling(
-                np.array(scaling["vw"], dtype=wd),
-                np.array(scaling["cw"], dtype=wd),
-                int(scaling["ow"]),
-            )
+            vw_buf, cw_buf = np.array(scaling["vw"], dtype=wd), np.array(scaling["cw"], dtype=wd)
+            kw["scaling"] = Scaling(vw_buf, cw_buf, int(scaling["ow"]))
+            # the caller's own weight arrays (a caller may re-use such buffers for the next problem)
+            kw["scaling"]._vf_caller_buffers = (vw_buf, cw_buf)
         else:
             kw["scaling_type"] = {
                 "nominal": ScalingType.Nominal,
